@@ -68,7 +68,7 @@ CHECKS = {
               "every consumer: the producer never passes an r2owa the consumer has not captured (no loss), a consumer never captures one "
               "offer twice (no duplicate), captured values equal the sent ones in order. In strict mode the check reproduces the two "
               "recorded defects (replayed natively with real goroutines); with exactly those two situations assumed away z3 shows the "
-              "property for all programs within the bounds (fan-out: one producer to k consumers; fan-in: two producers into the two inputs of one consumer); the producer-side situation is pinned to its cause (an r2owa starting on the tick after the "
+              "property for all programs within the bounds (fan-out: one producer to k consumers; fan-in: two producers into the two inputs of one consumer; port selection on processors with different input/output index widths); the producer-side situation is pinned to its cause (an r2owa starting on the tick after the "
               "previous one retired) so that a received flag stuck high for another reason is still reported. Configurations with delays give "
               "every opcode a single-delay distribution whose delay is a solver variable (SimDelayMap). HARDWARE side: the processor, ROM and "
               "top-level Verilog the real generators write for the same machines is unrolled by /verif/vlog for T cycles with symbolic ROM "
@@ -210,7 +210,8 @@ CHECKS = {
               "order, and reject an index >= length without changing anything. Part 3 (SimDrive.Init): for lists of 1-3 rules on concrete "
               "objects with tick, value, kind and suspended flag symbolic, for ANY tick and every object the absolute and periodic injection "
               "tables hold exactly the value of the last non-suspended matching set rule and nothing otherwise, the injection pointer is the "
-              "object's location and absolutely-set inputs are marked for valid. SimReport.Init (get/show/event tables) and the tick loops "
+              "object's location and absolutely-set inputs are marked for valid; likewise SimReport.Init for absolute, periodic, on-exit and on-valid "
+              "get/show rules (tables, registrations, event pointers). On-receive rules, get_all/show_all and the tick loops "
               "that apply the tables (cmd/bondmachine - where periodic set is a TODO -, SinglePipelineSimulate) are NOT covered: 'applied "
               "exactly as written during simulation' is only claimed up to the compiled tables."),
         note=("Trusted: z3, go/ssa, /verif/symgo; the decimal text of a 64-bit tick is an injective token (strconv.Atoi(strconv.Itoa(x)) == x), "
